@@ -128,14 +128,14 @@ def strlit(s: str) -> str:
 def vallit(v) -> str:
     """A reading as a [val FOps] term."""
     if v is None:
-        return "VNone"
+        return "(@VNone F)"
     if isinstance(v, bool):
-        return f"(VBool {'true' if v else 'false'})"
+        return f"(@VBool F {'true' if v else 'false'})"
     if isinstance(v, (int, float)):
-        return f"(VNum {numlit(v)})"
+        return f"(@VNum F {numlit(v)})"
     if isinstance(v, dict):
         items = "; ".join(f"({strlit(k)}, {vallit(x)})" for k, x in v.items())
-        return f"(VDict [{items}])"
+        return f"(@VDict F [{items}])"
     raise TypeError(f"cannot encode {type(v)}")
 
 
@@ -151,17 +151,24 @@ def listlit(xs, f=lambda x: x) -> str:
 # evaluation of generated case files
 
 HEADER = """From Coq Require Import ZArith List String Bool PrimFloat.
-From Hexital Require Import Base.Prelude Base.Num Base.PyFloat Model.Manager Model.Candle Inst.FloatInst Run.Check{extra}.
+From Hexital Require Import Base.Prelude Base.Num Base.PyFloat Model.Manager Model.Candle Model.Readings Model.Analysis Model.Engine Inst.FloatInst Run.Check{extra}.
 Import ListNotations.
 Local Open Scope Z_scope.
+Definition POW : list (float * Z * float) := {pow}.
+Notation F := (FOps POW).
 """
 
 
-def eval_file(name: str, body: str, extra_imports: str = "", timeout: int = 900) -> Tuple[bool, str]:
+def powlit(table) -> str:
+    """The libm pow oracle: (base, exponent, result) triples observed on this platform."""
+    return "[" + "; ".join(f"({flit(b)}, {zlit(k)}, {flit(r)})" for b, k, r in table) + "]"
+
+
+def eval_file(name: str, body: str, extra_imports: str = "", timeout: int = 900, pow_table=()) -> Tuple[bool, str]:
     d = BUILD / "cases"
     d.mkdir(parents=True, exist_ok=True)
     path = d / f"{name}.v"
-    path.write_text(HEADER.format(extra=(" " + extra_imports) if extra_imports else "") + body)
+    path.write_text(HEADER.format(extra=(" " + extra_imports) if extra_imports else "", pow=powlit(pow_table)) + body)
     r = subprocess.run(["timeout", str(timeout), "coqc", "-R", str(THEORIES), "Hexital",
                         "-w", "-notation-overridden,-deprecated-syntactic-definition",
                         str(path)], cwd=d, capture_output=True, text=True)
@@ -191,7 +198,7 @@ def parse_bad_ids(out: str) -> List[int]:
 
 def run_shards(prop: str, tag: str, case_terms: List[str], case_type: str, checker: str,
                preamble: str = "", extra_imports: str = "", shard: int = 150,
-               timeout: int = 900) -> Tuple[List[int], List[str]]:
+               timeout: int = 900, pow_table=()) -> Tuple[List[int], List[str]]:
     """Evaluate [checker : case_type -> bool] on every case inside Coq; returns the indices
     of the cases on which it is false, and error logs of shards that failed to run."""
     # shards are bounded by size: parsing time of coqc grows faster than linearly
@@ -210,7 +217,7 @@ def run_shards(prop: str, tag: str, case_terms: List[str], case_type: str, check
         body = preamble + f"\nDefinition cases : list (Z * ({case_type})) := [\n" + ";\n".join(
             f"({zlit(i)}, {t})" for i, t in sh) + "\n].\n"
         body += f"Eval vm_compute in (map fst (filter (fun c => negb ({checker} (snd c))) cases)).\n"
-        ok, out = eval_file(f"{prop}_{tag}_{k}", body, extra_imports, timeout)
+        ok, out = eval_file(f"{prop}_{tag}_{k}", body, extra_imports, timeout, pow_table)
         if not ok:
             return None, f"shard {k}: " + out[-1200:]
         try:
